@@ -252,6 +252,9 @@ func (w *c15World) goChk(fn string, toks []string) string {
 			ref = math.Pow(xs[0], xs[1])
 		case "atan2":
 			ref = math.Atan2(xs[0], xs[1])
+			if xs[0] < 0 && ref > 0 { // mathAtan2: the result has the sign of y also when y/x underflows inside math.Atan2
+				ref = -ref
+			}
 		default:
 			ref, tol = math.Mod(xs[0], xs[1]), 0
 		}
@@ -1042,6 +1045,21 @@ func genC15Math(run *Run, r *Rng, nops int) []Op {
 			ops = append(ops, Op{Args: []string{f, itok(x), itok(y)}})
 			run.Distinct[fmt.Sprintf("math %s sx%v sy%v", f, x < 0, y < 0)] = true
 		case c < 96:
+			if r.Chance(25) {
+				// bounds more than 2^63 apart (all exactly representable as float64): an interval wider than the largest
+				// int yields a value of it (Lua's float64 formula), the reversed pair is an empty interval
+				lo := Pick(r, []int{-(1 << 62), -(1 << 63), -(1 << 62) - 1024, -(1 << 62) - (1 << 61), -(1 << 63) + 2048})
+				hi := Pick(r, []int{1 << 62, (1 << 63) - 1024, (1 << 62) + 1024, (1 << 62) + (1 << 61), (1 << 62) + (r.Range(0, 1000) << 10)})
+				if r.Chance(25) {
+					lo, hi = hi, lo
+				}
+				if r.Chance(15) {
+					lo, hi = Pick(r, []int{-(1 << 63), -(1 << 63) + 1024}), Pick(r, []int{-1, 0, 1, 1024})
+				}
+				ops = append(ops, Op{Args: []string{"random2", itok(lo), itok(hi)}})
+				run.Distinct[fmt.Sprintf("math random2 wide empty=%v", lo > hi)] = true
+				break
+			}
 			m := Pick(r, []int{r.Range(-5, 5), r.Range(-1000, 1000), 0, 1, -(1 << 31), 1 << 40})
 			span := Pick(r, []int{0, 0, 1, 2, 5, 100, 1 << 20, -1, -3})
 			ops = append(ops, Op{Args: []string{"random2", itok(m), itok(m + span)}})
@@ -1128,22 +1146,71 @@ func runC15(run *Run) {
 		cases = append(cases, genC15FormatGrid()...)
 	}
 	cases = append(cases, chunk(genC15RandomStrings(run, root.Fork(1), nStr), 50, 200000)...)
-	// integer positions given as numeric strings (known finding C15-int-arg-no-string-coercion): one op per case
+	// integer positions and counts given as STRINGS (CheckInt / OptInt convert a numeral, Lua §2.2.1; repaired finding
+	// C15-int-arg-no-string-coercion): sub (i, j), byte (i, j), rep (n), find (init) with decimal numerals in several
+	// spellings — bare, blank-padded, `.0`, exponent — and with strings that are a numeral in no reading (type error).
+	// Only numerals inside the subset StrModel.checkIntStr models are sent (no hexadecimal, no non-integral value).
 	{
 		r := root.Fork(4)
 		var ops []Op
-		for k := 0; k < 150; k++ {
+		numeral := func(v int) string {
+			d := strconv.Itoa(v)
+			switch c := r.Intn(100); {
+			case c < 50:
+				return encStr(d)
+			case c < 62:
+				return encStr(" " + d + " \t")
+			case c < 72:
+				return encStr(d + ".0")
+			case c < 80:
+				return encStr(d + "e0")
+			case c < 86 && v >= 0:
+				return encStr("+" + d)
+			case c < 92:
+				return encStr(Pick(r, []string{"", "x", "1x", "-", "--1", "2 3", "1e", "."}))
+			}
+			return itok(v)
+		}
+		nq := 600
+		if thorough {
+			nq = 20000
+		}
+		for k := 0; k < nq; k++ {
 			l := r.Range(0, 6)
-			st := encStr(randBytes(r, l))
-			if r.Chance(70) {
-				ops = append(ops, Op{Args: []string{"sub", st, encStr(strconv.Itoa(boundaryIndex(r, l) % 100)), optTok(r, 40, r.Range(-l-2, l+2))}})
-			} else {
-				ops = append(ops, Op{Args: []string{"rep", st, encStr(strconv.Itoa(r.Range(-2, 5)))}})
+			b := randBytes(r, l)
+			st := encStr(b)
+			switch c := r.Intn(100); {
+			case c < 40:
+				jt := "-"
+				if r.Chance(60) {
+					jt = numeral(boundaryIndex(r, l))
+				}
+				ops = append(ops, Op{Args: []string{"sub", st, numeral(boundaryIndex(r, l)), jt}})
+				run.Distinct["int-arg-as-string sub"] = true
+			case c < 60:
+				it, jt := "-", "-"
+				if r.Chance(80) {
+					it = numeral(r.Range(-l-2, l+2))
+					if r.Chance(60) {
+						jt = numeral(r.Range(-l-2, l+2))
+					}
+				}
+				ops = append(ops, Op{Args: []string{"byte", st, it, jt}})
+				run.Distinct["int-arg-as-string byte"] = true
+			case c < 80:
+				ops = append(ops, Op{Args: []string{"rep", st, numeral(r.Range(-2, 5))}})
+				run.Distinct["int-arg-as-string rep"] = true
+			default:
+				pat := ""
+				if l > 0 {
+					a := r.Range(0, l-1)
+					pat = b[a : a+r.Range(0, l-a)]
+				}
+				ops = append(ops, Op{Args: []string{"find", st, encStr(pat), numeral(r.Range(-l-2, l+2)), "T"}})
+				run.Distinct["int-arg-as-string find"] = true
 			}
 		}
-		run.Distinct["int-arg-as-numeric-string sub"] = true
-		run.Distinct["int-arg-as-numeric-string rep"] = true
-		cases = append(cases, chunk(ops, 1, 250000)...)
+		cases = append(cases, chunk(ops, 50, 250000)...)
 	}
 	cases = append(cases, chunk(genC15Format(run, root.Fork(2), nFmt), 1, 400000)...)
 	{
